@@ -2,6 +2,16 @@
 import lattice_rules, agg_rules, lib_rules, byods_rules, byods_rules2, gen_driver, witness_rules, macro_rules
 
 
+def _lib_protocol(ctx, rep):
+    """the index building blocks every generated program evaluates through: merges keep both sides whichever is larger (L4), freezing
+    converts without rebuilding (L6), the total+delta view reads both parts (L7), emptiness tests are exact (L13). A change that
+    breaks one of them breaks every behavioural property of the programs built on them."""
+    lib_rules.check_L4(ctx, rep)
+    lib_rules.check_L6(ctx, rep)
+    lib_rules.check_L7(ctx, rep)
+    lib_rules.check_L13(ctx, rep)
+
+
 def run_C16(ctx, rep):
     lattice_rules.check_L10(ctx, rep)
 
@@ -118,6 +128,7 @@ def run_C12(ctx, rep):
 
 
 def run_C05(ctx, rep):
+    _lib_protocol(ctx, rep)
     lib_rules.check_L1(ctx, rep)
     lib_rules.check_L31(ctx, rep)
     gen_driver.run_gen(ctx, rep, ['G1G3', 'USES', 'G5', 'G14', 'G15'], floors={'G1': 300, 'G1.lat': 20, 'G1.uses': 800, 'G5': 250, 'G15': 15})
@@ -163,15 +174,18 @@ def run_C03(ctx, rep):
 
 
 def run_C13(ctx, rep):
+    _lib_protocol(ctx, rep)
     gen_driver.run_gen(ctx, rep, ['UI', 'G6', 'G5', 'G8', 'G1G3', 'G3r.maint', 'G17'], floors={'G4.ui': 500, 'G3.ui': 500, 'G6': 15, 'G5': 250, 'G8': 60, 'G1': 300, 'G3r': 100, 'G17': 30})
     _g17_verdict(rep)
 
 
 def run_C14(ctx, rep):
+    _lib_protocol(ctx, rep)
     gen_driver.run_gen(ctx, rep, ['G2G7', 'G8', 'G1G3', 'UI'], floors={'G7': 6, 'G8': 60, 'G3.ui': 500})
 
 
 def run_C04(ctx, rep):
+    _lib_protocol(ctx, rep)
     gen_driver.run_gen(ctx, rep, ['G9', 'G12', 'G1G3', 'UI'], floors={'G9': 20, 'G12': 40})
     gen_driver.run_tv(ctx, rep, only_tags=['agg', 'neg'], floors={'R1': 50})
     # every index an aggregation / negation reads is maintained for derived rows (and not stale)
